@@ -531,6 +531,15 @@ sexp sexp_scheduler (sexp ctx, sexp self, sexp_sint_t n, sexp root_thread) {
   /* check timeouts */
   if (sexp_pairp(paused)) {
     if (gettimeofday(&tval, NULL) == 0) {
+      /* the running thread is never in the run queue: if it is paused and its */
+      /* own timeout has already passed wake it in place, otherwise it would be */
+      /* queued twice and its next timed wait would lose the timeout */
+      if (sexp_context_waitp(ctx) && sexp_context_before(ctx, tval)
+          && sexp_delete_list(ctx, SEXP_G_THREADS_PAUSED, ctx)) {
+        sexp_context_timeoutp(ctx) = 1;
+        sexp_context_waitp(ctx) = 0;
+        paused = sexp_global(ctx, SEXP_G_THREADS_PAUSED);
+      }
       ls1 = SEXP_NULL;
       ls2 = paused;
       while (sexp_pairp(ls2) && sexp_context_before(sexp_car(ls2), tval)) {
